@@ -9,6 +9,7 @@ SPEC = {
             {"args": ["-mode", "rt"], "corpus": "rt"},
             {"args": ["-mode", "st"], "corpus": "st"},
             {"args": ["-mode", "fw"], "corpus": "fw"},
+            {"args": ["-mode", "pl"], "corpus": "pl"},
         ],
     },
     "strip_obs": r" alloc \d+",
@@ -20,7 +21,11 @@ SPEC = {
              "re-chunking proxy): every sequence of <= 3 events over {write, empty write, CloseWrite, Close, foreign data "
              "frame, foreign close frame, own unknown-type frame, own empty data frame}, write sizes k*64KiB+{-1,0,1} against "
              "read buffers below/at/above a frame, random scripts; fw: the real runBidirectionalForward between a TCP application connection and a FrameStream "
-             "(upload, half-close, answer, close; sizes 0..100000); non-trivial = stream cut at least once (dec/rt) or >= 2 "
+             "(upload, half-close, answer, close; sizes 0..100000); every st case carries the constructor/tracker dimension "
+             "(NewFrameStream | NewFrameStreamWithTracker with a scripted double answering closed/active/unknown per foreign "
+             "tunnel) and optionally creates the receiving stream only after residual frames are queued; pl: a stream on a "
+             "connection obtained from the real NodeConnectionPool (Get, residual frames of the previous tunnel arrive, "
+             "Release, Get); non-trivial = stream cut at least once (dec/rt) or >= 2 "
              "events (st); distinct = distinct (events/stream prefix, sizes, chunking, read pattern)"),
     "trusted_base": [
         "Lean 4.33 kernel; axioms propext, Classical.choice, Quot.sound only (audited per theorem on every run)",
